@@ -83,6 +83,17 @@ Fragment(d) ==
                              EXCEPT !.items = <<It(Wd("_d1"), [k |-> "table", e |-> <<<<C1("k"), Bare(C1("2"))>>>>])>>]
       [] d = "unquoted_key" -> [F(Wd("_d1") \o Sp \o <<"{", "k", ":", "1", "}">>, 138)
                                  EXCEPT !.items = <<It(Wd("_d1"), [k |-> "table", e |-> <<<<C1("k"), Bare(C1("1"))>>>>])>>]
+      \* the same defects with white space (or a line end) after the colon, a longer key, a quoted value, a lone bare word
+      [] d = "unquoted_key_sp" -> [F(Wd("_d1") \o Sp \o <<"{", "k", ":", " ", "1", "}">>, 138)
+                                    EXCEPT !.items = <<It(Wd("_d1"), [k |-> "table", e |-> <<<<C1("k"), Bare(C1("1"))>>>>])>>]
+      [] d = "unquoted_key_eol" -> [F(Wd("_d1") \o Sp \o <<"{", "a", "b", ":", EOL, "1", "}">>, 138)
+                                     EXCEPT !.items = <<It(Wd("_d1"), [k |-> "table", e |-> <<<<<<"a", "b">>, Bare(C1("1"))>>>>])>>]
+      [] d = "unquoted_key_q" -> [F(Wd("_d1") \o Sp \o <<"{", "a", "b", ":">> \o Q(C1("x")) \o <<"}">>, 138)
+                                   EXCEPT !.items = <<It(Wd("_d1"), [k |-> "table", e |-> <<<<<<"a", "b">>, Ch(C1("x"))>>>>])>>]
+      [] d = "null_key_sp" -> [F(Wd("_d1") \o Sp \o <<"{", ":", " ", "1", " ">> \o Q(C1("k")) \o <<":", " ", "2", "}">>, 140)
+                                EXCEPT !.items = <<It(Wd("_d1"), [k |-> "table", e |-> <<<<C1("k"), Bare(C1("2"))>>>>])>>]
+      [] d = "missing_key_only" -> [F(Wd("_d1") \o Sp \o <<"{", "v", "}">>, 137)
+                                     EXCEPT !.items = <<It(Wd("_d1"), [k |-> "table", e |-> <<>>])>>]
       [] d = "text_key" -> [F(Wd("_d1") \o Sp \o <<"{", EOL, ";", "k", EOL, ";", ":", "1", "}">>, 139)
                              EXCEPT !.items = <<It(Wd("_d1"), [k |-> "table", e |-> <<<<C1("k"), Bare(C1("1"))>>>>])>>]
       [] d = "reserved_data" -> F(Wd("data_"), 132)
